@@ -7,7 +7,7 @@
    vm_compute on the enumeration are statements about all cells. *)
 From Coq Require Import List Bool.
 Import ListNotations.
-From DDP Require Import Gen.Operators Lower.TcTable Lower.LowerTable Lower.Cells Lower.CellsProofs.
+From DDP Require Import Gen.OperatorEnum Lower.TcTable Lower.LowerTable Lower.Cells Lower.CellsProofs.
 
 (* the bound: the enumerations the finite-domain proofs run over contain every cell, context and type class *)
 Theorem C02_enumeration_complete :
